@@ -43,10 +43,10 @@ Definition ncheck (c : ncase) : list nat :=
       (if vclose tolx (n_cost c) (icost p) then [] else [5%nat])
   | _ =>
       let S0 := fista_solver (n_A c) (n_ncols c) (n_y c) (n_alpha c) (n_eps c) (n_tol c) nsqrt in
-      let p := fst (execL S0 (n_prog c) (enter S0 (is_setup (n_x0 c)))) in
-      (if Nat.eqb (ii p) (n_iiter c) then [] else [1%nat]) ++
-      (if vclose tolx (n_x c) (ix p) then [] else [4%nat]) ++
-      (if vclose tolx (n_cost c) (icost p) then [] else [5%nat])
+      let p := fst (execL S0 (n_prog c) (enter S0 (f_setup (n_x0 c)))) in
+      (if Nat.eqb (pi p) (n_iiter c) then [] else [1%nat]) ++
+      (if vclose tolx (n_x c) (px p) then [] else [4%nat]) ++
+      (if vclose tolx (n_cost c) (pcost p) then [] else [5%nat])
   end.
 
 (* ---- alias cases: which solver fields share a buffer with the caller's y / x0.
